@@ -76,8 +76,10 @@ KeepMask(x) == MQuota = 1 \/ H(<<x.M + (CHOOSE i \in 1..4 : TypeSeq[i] = x.T), x
 \* ---- stratum 4: three-vector column blocks (numSIMDCols = 3: N % 3V = 0, M % 3V = 0, N > 24)
 Nc3Shapes == UNION { { <<s[1], 7, s[2]>>, <<s[1], s[1] + 1, s[2]>>, <<s[1], s[2], s[2]>> } :
                         s \in { <<6, 30>>, <<12, 30>>, <<12, 36>>, <<24, 48>>, <<48, 48>> } }
+\* 24 x 25 x 48 in double has three-vector blocks under SSE2 (V=2), AVX2 (V=4) and AVX-512 (V=8): always kept, all tag pairs
 Nc3Cases == { Case(s, lt, rt, TypeSeq[(H(s, lt, rt, 4) % 4) + 1], "nc3") : s \in Nc3Shapes, lt \in Tags, rt \in Tags }
-KeepNc3(x) == MQuota = 1 \/ H(<<x.M, x.K, x.N>>, x.lt, x.rt, 8) % (2 * MQuota) = 0
+            \cup { Case(<<24, 25, 48>>, lt, rt, "f64", "nc3") : lt \in Tags, rt \in Tags }
+KeepNc3(x) == MQuota = 1 \/ (x.T = "f64" /\ x.M = 24 /\ x.K = 25) \/ H(<<x.M, x.K, x.N>>, x.lt, x.rt, 8) % (2 * MQuota) = 0
 
 Cases == { x \in BoxCases : KeepBox(x) } \cup { x \in EdgeCases : KeepEdge(x) }
          \cup { x \in MaskCases : KeepMask(x) } \cup { x \in Nc3Cases : KeepNc3(x) }
@@ -131,4 +133,7 @@ Wanted(isa) == { <<FALSE, rc, cc>> : rc \in {"m0", "m1"}, cc \in {"n0", "n1", "s
 ASSUME PlanReachesEveryClippedClass ==
     \A isa \in {"sse2", "avx2", "avx512"} :
         Wanted(isa) \subseteq UNION { ClassesOf(x, isa) : x \in { y \in Cases : Prim(y.T) } }
+ASSUME PlanReachesThreeVectorBlocks ==
+    \A isa \in {"sse2", "avx2", "avx512"}, lt \in Tags, rt \in Tags :
+        \E x \in Cases : Prim(x.T) /\ x.lt = lt /\ x.rt = rt /\ NumCols(x.M, x.N, BestSize(x.T, isa, x.N), 0) = 3
 =======================================================================================
